@@ -4,6 +4,6 @@ go 1.25.0
 
 require github.com/bbockelm/cedar v0.0.0
 
-require github.com/PelicanPlatform/classad v0.4.0 // indirect
+require github.com/PelicanPlatform/classad v0.4.0
 
 replace github.com/bbockelm/cedar => /repo
